@@ -148,7 +148,7 @@ fn main() {
     r.guard("clean_prefix_outcomes_seen", seen("ok:strict-prefix"));
     r.guard("flips_in_every_region_seen", ["frame.magic", "frame.kind", "frame.len", "frame.payload", "frame.digest", "commit.magic", "commit.kind", "commit.len", "commit.payload", "commit.digest"]
         .iter().all(|reg| seen(&format!("region:{reg}"))));
-    r.guard("record_edits_seen", seen("op:delete") && seen("op:dup") && seen("op:swap") && seen("op:transplant") && seen("op:splice"));
+    r.guard("record_edits_seen", seen("op:delete") && seen("op:dup") && seen("op:swap") && seen("op:transplant") && seen("op:splice") && seen("op:unknown-kind"));
     r.guard("ledger_and_manifest_flips_seen", oc2.keys().any(|k| k.starts_with("ledger:")) && oc2.keys().any(|k| k.starts_with("manifest:")));
     if let Some((a, _)) = logs.first() {
         r.sample(json!({"log": a.word(), "segment_len": a.segment.len(),
